@@ -4,7 +4,8 @@
 (* transition cover - every action appends the history so far with the reply the   *)
 (* specification computes (Sm9Sys!Emit); hist is outside the VIEW.                 *)
 EXTENDS Sm9Sys
-CONSTANTS Masters,            \* which master keys exist: subset of {"s", "e"}
+CONSTANTS MaxArts,            \* artefacts alive in one behaviour
+          Masters,            \* which master keys exist: subset of {"s", "e"}
           MasterClasses,      \* classes of master scalars: "one" "nm2" "r1" "r2"
           UidLens, Hids,      \* identities (lengths; contents from Prng) and hid bytes
           CodecKinds,         \* key kinds whose encodings are decoded: subset of Kinds
@@ -16,26 +17,29 @@ CONSTANTS Masters,            \* which master keys exist: subset of {"s", "e"}
           Tamper,             \* BOOLEAN: single-byte alterations (positions: Sm9Sys!TamperAll, masks: Masks)
           KxLens, KxKLens, KxVars    \* key exchange: identity lengths (A and B range over it), key lengths, variants
 
+(* a producer runs only if a consumer can still follow it *)
+Room == nops + 1 < MaxOps /\ Len(arts) < MaxArts
 TamperVariants(lay) == IF Tamper THEN {[v |-> "tamper", pos |-> p, mask |-> m] : p \in Positions(lay), m \in Masks} ELSE {}
 Named(vs) == {[v |-> x] : x \in vs}
 ConfPos == IF TamperAll THEN 0..31 ELSE {0, 31}
 
 Next ==
-  \/ \E w \in Masters, c \in MasterClasses : GenMaster(w, c)
+  \/ nops + 1 < MaxOps /\ \E w \in Masters, c \in MasterClasses : GenMaster(w, c)
   \/ \E k \in CodecKinds, u \in UidLens, h \in Hids : \E f \in FormsOf(k) :
         /\ (k \in {"smpriv", "smpub", "empriv", "empub"}) => (u = (CHOOSE x \in UidLens : TRUE) /\ h = (CHOOSE x \in Hids : TRUE))      \* no identity in these
         /\ Codec(k, f, u, h)
-  \/ \E u \in UidLens, h \in Hids, n \in MLens, rc \in RCs, how \in SignHows : Sign(u, h, 1, n, rc, how)
+  \/ \E k \in CodecKinds \cap {"supriv", "eupriv"}, u \in UidLens, h \in Hids : \E f \in FormsOf(k) : UseKey(k, f, u, h)
+  \/ Room /\ \E u \in UidLens, h \in Hids, n \in MLens, rc \in RCs, how \in SignHows : Sign(u, h, 1, n, rc, how)
   \/ \E a \in 1..Len(arts) : arts[a].t = "sig"
         /\ \E vh \in (IF arts[a].how = "func" THEN {"func"} ELSE {"asn1", "method"}) :
              \E v \in Named(Variants \cap (IdVariants \cup {"wrongmsg", "longmsg"})) \cup TamperVariants(SigLayout(arts[a].how)) : Verify(a, v, vh)
-  \/ \E u \in UidLens, h \in Hids, kl \in KLens, rc \in RCs, how \in WrapHows : Wrap(u, h, kl, rc, how)
+  \/ Room /\ \E u \in UidLens, h \in Hids, kl \in KLens, rc \in RCs, how \in WrapHows : Wrap(u, h, kl, rc, how)
   \/ \E a \in 1..Len(arts) : arts[a].t = "wrap"
         /\ \E v \in Named(Variants \cap KeyVariants) \cup TamperVariants(WrapLayout(arts[a].how)) : Unwrap(a, v)
-  \/ \E u \in UidLens, h \in Hids, n \in MLens, mode \in ModeSet, enc \in EncSet, rc \in RCs : Encrypt(u, h, 2, n, mode, enc, rc)
+  \/ Room /\ \E u \in UidLens, h \in Hids, n \in MLens, mode \in ModeSet, enc \in EncSet, rc \in RCs : Encrypt(u, h, 2, n, mode, enc, rc)
   \/ \E a \in 1..Len(arts) : arts[a].t = "ct"
         /\ \E v \in Named(Variants \cap KeyVariants) \cup TamperVariants(CtLayout(arts[a].enc, arts[a].mode, Len(arts[a].msg))) : Decrypt(a, v)
-  \/ \E ua \in KxLens, ub \in KxLens, h \in Hids : KxSetup(ua, ub, h)
+  \/ Room /\ \E ua \in KxLens, ub \in KxLens, h \in Hids : KxSetup(ua, ub, h)
   \/ \E a \in 1..Len(arts), kl \in KxKLens, cf \in BOOLEAN, vv \in KxVars : arts[a].t = "kxs" /\
         \/ (vv \in {"ok", "wrongpeer_a", "wrongpeer_b"} /\ KxRun(a, kl, cf, [v |-> vv]))
         \/ (vv \in {"tamper_ra", "tamper_rb"} /\ Tamper /\ \E p \in Positions(WrapLayout("func")), m \in Masks : KxRun(a, kl, cf, [v |-> vv, pos |-> p, mask |-> m]))
